@@ -198,6 +198,9 @@ func C04(p *core.Program, r *core.Report) {
 	}
 	r.Analysed["declared_size_library_decoder_calls"] = nLib
 
+	// ---- "never loops for ever": the shortest-path search over link-state data from the network
+	checkArcCostsNonNegative(p, r)
+
 	// ---- "never loops/hangs for ever": feedback channels registered for the TCPCLv4 receive loop
 	nReg := checkRegisteredChannelsRemoved(p, r)
 	r.Min("channels registered for a service goroutine", 1)
